@@ -27,6 +27,7 @@ class IdentifierOfLicense:
 # ---- C04: per-file sources and precedence ------------------------------------------------------------------------------
 from reuse.global_licensing import PrecedenceType
 
+infos_of = ufun("infos_of", ["Project", "Path"], "list[ReuseInfo]")
 own_info = ufun("own_info", ["Path", "Path", "Path"], "ReuseInfo")
 global_infos = ufun("global_infos", ["GlobalLicensing", "Path"], "dict[PrecedenceType, list[ReuseInfo]]")
 is_binary_file = ufun("is_binary", ["str"], "bool")
@@ -79,6 +80,8 @@ class ProjectReuseInfoOf:
     types = {"self": "Project", "path": "Path", "return": "list[ReuseInfo]"}
     # an arbitrary (value, source, source type) triple of each kind: what the JSON exposes per item
     ghost = {"v0": "str", "x0": "Expr", "sp0": "Optional[str]", "st0": "Optional[SourceType]"}
+    # callers (FileReport.generate) refer to the result through the ghost function infos_of(project, path)
+    result_name = lambda self, path: infos_of(self, path)
 
     def post(self, path, result, v0, x0, sp0, st0):
         lp = license_path(path)
@@ -92,22 +95,30 @@ class ProjectReuseInfoOf:
         mine_l = readable and x0 in own.spdx_expressions and own.source_path == sp0 and own.source_type == st0
         own_has_c = readable and bool(own.copyright_lines)
         own_has_l = readable and bool(own.spdx_expressions)
-        if PrecedenceType.OVERRIDE in G:
-            # override: REUSE.toml is the only source -- everything reported comes from the global file and the
-            # override tables are all reported (sandwich: the statement is silent about shallower aggregate/closest tables)
-            return (implies(has_c(ov, v0, sp0, st0), has_c(result, v0, sp0, st0))
-                    and implies(has_c(result, v0, sp0, st0), has_c(ov, v0, sp0, st0) or has_c(agg, v0, sp0, st0) or has_c(clo, v0, sp0, st0))
-                    and implies(has_l(ov, x0, sp0, st0), has_l(result, x0, sp0, st0))
-                    and implies(has_l(result, x0, sp0, st0), has_l(ov, x0, sp0, st0) or has_l(agg, x0, sp0, st0) or has_l(clo, x0, sp0, st0)))
-        # aggregate adds to the file's own; closest supplies whichever of copyright / licensing the file lacks
-        return (has_c(result, v0, sp0, st0) == (has_c(agg, v0, sp0, st0) or mine_c or (not own_has_c and has_c(clo, v0, sp0, st0)))
-                and has_l(result, x0, sp0, st0) == (has_l(agg, x0, sp0, st0) or mine_l or (not own_has_l and has_l(clo, x0, sp0, st0))))
+        has_override = PrecedenceType.OVERRIDE in G
+        return (
+            # override: REUSE.toml is the only source -- everything reported comes from the global file and the override
+            # tables are all reported (sandwich: the statement is silent about shallower aggregate/closest tables)
+            implies(has_override and has_c(ov, v0, sp0, st0), has_c(result, v0, sp0, st0))
+            and implies(has_override and has_c(result, v0, sp0, st0),
+                        has_c(ov, v0, sp0, st0) or has_c(agg, v0, sp0, st0) or has_c(clo, v0, sp0, st0))
+            and implies(has_override and has_l(ov, x0, sp0, st0), has_l(result, x0, sp0, st0))
+            and implies(has_override and has_l(result, x0, sp0, st0),
+                        has_l(ov, x0, sp0, st0) or has_l(agg, x0, sp0, st0) or has_l(clo, x0, sp0, st0))
+            # otherwise: aggregate adds to the file's own; closest supplies whichever of copyright / licensing the file lacks
+            and implies(not has_override,
+                        has_c(result, v0, sp0, st0)
+                        == (has_c(agg, v0, sp0, st0) or mine_c or (not own_has_c and has_c(clo, v0, sp0, st0))))
+            and implies(not has_override,
+                        has_l(result, x0, sp0, st0)
+                        == (has_l(agg, x0, sp0, st0) or mine_l or (not own_has_l and has_l(clo, x0, sp0, st0)))))
 
     loops = {
         # for closest in global_results[CLOSEST]  (file has exactly one of copyright / licensing)
         2: LoopSpec(
             inv=lambda result, old_result, file_result, _i, _it, v0, x0, sp0, st0: (
-                has_c(result, v0, sp0, st0)
+                set(_it) == set(_it)       # states the index <-> element-set link for the iterated list
+                and has_c(result, v0, sp0, st0)
                 == (has_c(old_result, v0, sp0, st0)
                     or (not file_result.copyright_lines
                         and exists(lambda j: 0 <= j and j < _i and v0 in _it[j].copyright_lines and _it[j].source_path == sp0
